@@ -104,7 +104,7 @@ class FuncSpec:
                  returns_self=False, loops=None, lemmas=None, logical=None, inline=False, may_fail=False,
                  assume_only=False, entry_inv=True, exit_inv=True, notes='', src_cls=None, implements=None,
                  local_types=None, exc_inv=False, src_name=None, opaque=None, callee_variants=None, mirrors=None,
-                 counts=None, ghost_out=None, body_ensures=None, entry_lemmas=None):
+                 counts=None, ghost_out=None, body_ensures=None, entry_lemmas=None, cuts=None, exit_cuts=None):
         self.key = key
         self.file = file
         self.params = dict(params or {})
@@ -133,6 +133,8 @@ class FuncSpec:
         self.local_types = dict(local_types or {})
         self.exc_inv = exc_inv
         self.src_name = src_name
+        self.exit_cuts = list(exit_cuts or [])   # [(name, lambda(c))]: proof steps at normal exit, each proved then assumed, in order
+        self.cuts = dict(cuts or {})    # callee key prefix -> lambda(run, args NS): intermediate assertion proved, then assumed, just before that call
         self.entry_lemmas = entry_lemmas        # lambda(c) -> [BoolRef]: lemma instances assumed at entry
         self.body_ensures = dict(body_ensures or {})   # postcondition clauses over the body's own events (draw discipline): proved, never assumed at call sites
         self.counts = dict(counts or {})        # event counter -> lambda(c) -> number of events one call adds
